@@ -6,6 +6,7 @@ from coqrun import tx
 from gen import prims, pyref
 from gen.util import ASCII_WS, lib_vs_model, rbytes, short
 
+DRIVERS = ['C02']
 NEEDS = dict(cli=True, harness=True, shim=False, release=False)
 RULE = ("valid phrases of the five lengths (random entropy, random ASCII white-space layouts) x passphrases from the classes: empty, "
         "ASCII, Latin precomposed vs decomposed, compatibility characters (ligatures, circled digits, full-width), Hangul "
